@@ -7,7 +7,7 @@
 //!           completed write(2) calls survive a process kill; BufWriter contents do not);
 //!   POWER = per file the content it had at its last completed fsync / sync_data / msync
 //!           (a shadow directory refreshed at those events; a file that was never synced is
-//!           absent; unlink is taken as durable at once),
+//!           absent; unlink and rename are taken as durable at once),
 //! each image is re-opened with the real `Database::open`, every table is scanned and probed
 //! by key, and the recovered table / index files are read back page by page.
 //! What was observed (physical trace per statement, crash observations) is written as one Coq
@@ -298,6 +298,7 @@ impl Ctx {
         if let Some(k) = file_key(rel) { return fid(k); }
         if let Some(s) = rel.strip_prefix("wal/wal.") { return 1000 + s.parse::<i64>().unwrap_or(0); }
         if rel == "turdb.catalog" { return 2000; }
+        if rel == "turdb.catalog.tmp" { return 2004; }
         if rel == "turdb.meta" { return 2001; }
         if rel.starts_with("turdb_catalog/") { return 2002; }
         2003
@@ -328,6 +329,13 @@ impl Ctx {
             3 => { self.wal_seen.insert(p.clone(), a); }
             4 => { if rel.starts_with("wal/") { self.wal_seen.insert(p.clone(), 0); } }
             5 => { let _ = std::fs::remove_file(self.shadow.join(&rel)); self.wal_seen.remove(&p); }
+            7 => {
+                // rename(<path>.tmp, <path>): directory operations are durable at once, the renamed file
+                // has the content of its last completed sync (absent if it was never synced)
+                let from = self.shadow.join(format!("{}.tmp", rel));
+                let to = self.shadow.join(&rel);
+                if from.exists() { let _ = std::fs::rename(&from, &to); } else { let _ = std::fs::remove_file(&to); }
+            }
             _ => {}
         }
         // system tables and the meta file are not part of the protocol model
@@ -777,12 +785,11 @@ fn gen_workload(rng: &mut Rng, shape: u32, len: usize) -> Workload {
         let t = 1 + rng.below(created as u64) as u32;
         let rows: Vec<(i64, i64)> = st[&t].iter().map(|(k, v)| (*k, *v)).collect();
         let c = rng.below(100);
-        // after a reopen INSERT fails in the unchanged tree (row ids restart at 1): only update / delete then
-        let s = if (rows.is_empty() || c < if pad > 0 { 75 } else { 50 }) && !reopened {
+        let _ = reopened;
+        let s = if rows.is_empty() || c < if pad > 0 { 75 } else { 50 } {
             let k = next_key; next_key += 1;
             Step::Ins(t, k, rng.range(1, 99))
-        } else if rows.is_empty() { if st.values().all(|m| m.is_empty()) { break; } continue }
-        else if c < 85 { let (k, _) = *rng.pick(&rows); Step::Upd(t, k, rng.range(100, 199)) }
+        } else if c < 85 { let (k, _) = *rng.pick(&rows); Step::Upd(t, k, rng.range(100, 199)) }
         else { let (k, _) = *rng.pick(&rows); Step::Del(t, k) };
         apply_logical(&mut st, &s);
         steps.push(s);
